@@ -48,7 +48,7 @@ func main() {
 		}()
 		cfg := load.Config{
 			RepoDir:     *repo,
-			ControlsSrc: filepath.Join(*verif, "analyzer", "controls"),
+			ControlsSrc: filepath.Join(*verif, "analyzer", "testdata", "controls"),
 			GOOS:        *goos,
 			GOARCH:      *goarch,
 			Tests:       *tests,
